@@ -662,7 +662,7 @@ def gl7(prog):
 
 def run(prog):
     a, getfn = gl1(prog)
-    return a + gl2(prog, getfn) + gl3(prog) + gl4(prog) + gl5(prog) + gl6(prog) + gl7(prog) + gl8(prog) + gl9(prog) + gl10(prog) + gl11(prog)
+    return a + gl2(prog, getfn) + gl3(prog) + gl4(prog) + gl5(prog) + gl6(prog) + gl7(prog) + gl8(prog) + gl9(prog) + gl10(prog) + gl11(prog) + gl12(prog) + gl13(prog) + gl14(prog)
 
 
 def _resolve(t, d):
@@ -930,4 +930,372 @@ def gl11(prog):
                             "value of the call it is stored for" % (cs.line, show(v)[:50], show(strip(other[0]))[:70]))
         out.append(inst("GL", "%s:GL11:stored=returned" % f.npath, VIOLATION if errs else OK, f, calls[0].line,
                         "; ".join(errs) if errs else "the stored value is the returned value"))
+    return out
+
+
+def _self_field(te, t, bb=None):
+    """the field of self a place lies in (through borrows, derefs, elements, a loop-carried guard), or None"""
+    x = strip(t)
+    for _ in range(16):
+        if not isinstance(x, tuple) or not x:
+            return None
+        if x[0] == "field":
+            if strip(x[1]) in (("param", 1), ("deref", ("param", 1))):
+                return x[2]
+            x = strip(x[1])
+        elif x[0] in ("ref", "deref") and len(x) > 1 and isinstance(x[1], tuple):
+            x = strip(x[1])
+        elif x[0] == "mu":
+            x = strip(te.mu_init.get((x[1], x[2]), ()))
+        elif x[0] == "mut" and len(x) > 3 and isinstance(x[3], tuple):
+            x = strip(x[3])
+        elif x[0] == "mutref" and bb is not None:
+            v = te.state_in.get(bb, {}).get(x[1])
+            if v is None:
+                return None
+            x = strip(v)
+        elif x[0] == "call" and x[1].name in ("deref_mut", "deref", "borrow_mut", "borrow", "as_mut", "as_ref", "index_mut", "index",
+                                               "unwrap", "expect", "as_mut_slice", "as_slice", "get_mut", "get") and x[2]:
+            x = strip(x[2][0])
+        else:
+            return None
+    return None
+
+
+def _whole_params(k):
+    """parameters that the key carries unchanged (through references, tuples, copies) — a difference, a sum or a hash of
+    two parameters carries neither"""
+    out = set()
+    todo = [strip(k)]
+    while todo:
+        x = todo.pop()
+        if not isinstance(x, tuple) or not x:
+            continue
+        if x[0] == "param":
+            out.add(x[1])
+        elif x[0] in ("ref", "deref") and len(x) > 1:
+            todo.append(strip(x[1]))
+        elif x[0] == "agg":
+            todo += [strip(o) for o in x[4]]
+        elif x[0] == "call" and x[1].name in ("clone", "into", "from", "to_owned", "value_usize", "value", "as_usize") and x[2]:
+            todo.append(strip(x[2][0]))
+    return out
+
+
+def _without(t, k):
+    """t with every occurrence of the term k cut out"""
+    rk = repr(k)
+
+    def go(x):
+        if isinstance(x, tuple):
+            if x and isinstance(x[0], str) and repr(strip(x)) == rk:
+                return ("top",)
+            return tuple(go(y) for y in x)
+        if isinstance(x, list):
+            return [go(y) for y in x]
+        return x
+    return go(t)
+
+
+def gl12(prog):
+    """GL12  a table kept in a field of the object and filled on demand (entries are pushed / inserted by the very function
+    that returns `table[key]`) is a memo that outlives the call: every parameter its entries are computed from must be
+    carried by the key.  A key that is a *combination* of parameters (`total - current`, a sum, a hash) carries the
+    combination only: an entry built under one pair is served for every other pair with the same difference."""
+    from .dt import leaves
+    out = []
+    for f in prog.lib_fns:
+        if "::test" in f.npath or f.name.startswith("test") or "{closure" in f.npath or len(f.locals) < 2 or \
+                not f.locals[1]["s"].startswith("&") or not any(b["term"]["k"] == "call" for b in f.blocks):
+            continue
+        te = f.terms
+        fills = {}
+        for cs in te.calls:
+            if cs.callee.name in ("push", "insert", "push_back", "resize") and not cs.callee.local and len(cs.args) >= 2:
+                fld = _self_field(te, cs.args[0], cs.bb)
+                if fld:
+                    fills.setdefault(fld, []).append(cs)
+        if not fills:
+            continue
+        for r in leaves(te.ret):
+            r = strip(r)
+            while mir.is_call(r) and r[1].name in ("clone", "copied", "cloned", "unwrap", "expect", "deref") and r[2]:
+                r = strip(r[2][0])
+            if not (mir.is_call(r) and r[1].name in ("index", "get", "index_mut", "get_mut") and len(r[2]) == 2):
+                continue
+            fld = _self_field(te, r[2][0])
+            if not fld or fld not in fills:
+                continue
+            k = strip(r[2][1])
+            kparams = {x[1] for x in mir.subterms(k) if x[0] == "param" and x[1] != 1}
+            if not kparams:
+                continue          # not a lookup by the request (the entry just pushed, a fixed slot)
+            whole = _whole_params(k)
+            errs = []
+            for cs in fills[fld]:
+                v = _without(cs.args[-1], k)
+                dep = sorted({x[1] for x in mir.subterms(v) if x[0] == "param" and x[1] != 1} - whole)
+                if dep:
+                    names = [f.arg_name(p) or ("arg%d" % p) for p in dep]
+                    errs.append("the entries of `%s` are built from the parameter(s) %s (line %d: %s) but the table is indexed by "
+                                "`%s` only: it outlives the call, so an entry built for one request is served for every later "
+                                "request with the same index and another %s" % (fld, names, cs.line, show(cs.args[-1])[:60],
+                                                                                 show(k)[:40], "/".join(names)))
+            out.append(inst("GL", "%s:GL12:on-demand-table:%s" % (f.npath, fld), VIOLATION if errs else OK, f,
+                            fills[fld][0].line, "; ".join(dict.fromkeys(errs)) if errs else
+                            "entries of the on-demand table `%s` depend on the request only through its index `%s`" % (fld, show(k)[:40])))
+    return out
+
+
+# ------------------------------------------------------------------------------------------------------------------------------
+# GL13: a key the table computes from the triple denotes the same function as the triple
+
+_STATES = ("c0", "c1", "v0", "v1")       # constant false / constant true / a non-constant operand that is 0 / 1 at the point looked at
+
+
+def _role(t, roles, depth=0):
+    """(role, negated) of a key component: one of the triple's operands, possibly negated"""
+    from . import canon as _c
+    x = strip(_c._peel(strip(t)))
+    if depth > 8 or not isinstance(x, tuple) or not x:
+        return None
+    if x in roles:
+        return roles[x], False
+    if x[0] == "field" and x[2] in ("f", "g", "h") and isinstance(x[1], tuple) and x[1] and x[1][0] == "as":
+        return x[2], False
+    if x[0] == "call" and x[1].name in ("clone", "deref", "borrow", "to_owned") and x[2]:
+        return _role(x[2][0], roles, depth + 1)
+    if x[0] in ("gamma", "phi"):
+        # the same operand of either Ite variant (`IteChoice { f, .. } | IteComplChoice { f, .. }`)
+        rs = {_role(v, roles, depth + 1) for _, v in x[2]}
+        return rs.pop() if len(rs) == 1 else None
+    if x[0] == "call" and x[1].name == "neg" and x[2]:
+        r = _role(x[2][0], roles, depth + 1)
+        return (r[0], not r[1]) if r else None
+    return None
+
+
+def _bval(prog, t, roles, env, depth=0):
+    """three-valued truth of a condition under an abstract state of the three operands (None = not determined)"""
+    from . import canon as _c
+    x = strip(_c._peel(strip(t)))
+    if depth > 12 or not isinstance(x, tuple) or not x:
+        return None
+    if x[0] == "const":
+        return {"true": True, "false": False, "1": True, "0": False}.get(str(x[2])) if "bool" in str(x[1]) else None
+    if x[0] == "call":
+        nm = x[1].name
+        if nm in ("is_true", "is_false", "is_const") and x[2]:
+            r = _role(x[2][0], roles)
+            if r is None:
+                return None
+            st = env[r[0]]
+            if st[0] == "v":
+                return False
+            one = (st == "c1") != r[1]
+            return True if nm == "is_const" else (one if nm == "is_true" else not one)
+        if nm in ("call", "call_mut", "call_once") and len(x[2]) == 2:
+            a = strip(x[2][1])
+            arg = a[4][0] if isinstance(a, tuple) and a and a[0] == "agg" and len(a[4]) == 1 else None
+            body = _c.apply_closure(prog, x[2][0], arg) if arg is not None else None
+            return _bval(prog, body, roles, env, depth + 1) if body is not None else None
+        if nm in ("eq", "ne") and len(x[2]) == 2:
+            a, b = _role(x[2][0], roles), _role(x[2][1], roles)
+            if a and b and a[0] == b[0]:
+                return (a[1] == b[1]) == (nm == "eq")
+            return None
+        if nm == "not" and x[2]:
+            v = _bval(prog, x[2][0], roles, env, depth + 1)
+            return None if v is None else not v
+        return None
+    if x[0] == "un" and x[1] == "Not":
+        v = _bval(prog, x[2], roles, env, depth + 1)
+        return None if v is None else not v
+    if x[0] == "bin" and x[1] in ("BitAnd", "BitOr"):
+        a, b = _bval(prog, x[2], roles, env, depth + 1), _bval(prog, x[3], roles, env, depth + 1)
+        if x[1] == "BitAnd":
+            return False if (a is False or b is False) else (True if (a and b) else None)
+        return True if (a is True or b is True) else (False if (a is False and b is False) else None)
+    if x[0] == "gamma":
+        c = _bval(prog, x[1], roles, env, depth + 1)
+        vals = []
+        for lab, v in x[2]:
+            want = _lab_truth(lab)
+            if c is not None and want is not None and want != c:
+                continue
+            vals.append(_bval(prog, v, roles, env, depth + 1))
+        return vals[0] if vals and all(v == vals[0] for v in vals) else None
+    if x[0] == "phi":
+        vals = [_bval(prog, v, roles, env, depth + 1) for _, v in x[2]]
+        return vals[0] if vals and all(v == vals[0] for v in vals) else None
+    return None
+
+
+def _lab_truth(lab):
+    if lab in ("1", 1, True):
+        return True
+    if lab in ("0", 0, False):
+        return False
+    if isinstance(lab, tuple) and lab and lab[0] == "not" and len(lab) > 1:
+        inner = lab[1]
+        if inner in (("0",), ["0"], "0"):
+            return True
+        if inner in (("1",), ["1"], "1"):
+            return False
+    return None
+
+
+def gl13(prog):
+    """GL13  an ITE table may file a triple under a *rewritten* key (operands swapped or negated to merge entries of a
+    commutative connective).  The rewritten triple must denote the same function as the original one under the very
+    conditions the rewriting is done under: for every alternative of the key and every state of the three operands
+    (constant false / constant true / non-constant, value 0 or 1 at a point) that the alternative's conditions admit,
+    ite(a, b, c) = ite(f, g, h).  `ite(f, g, ⊥) = f ∧ g` may be re-oriented; `ite(f, g, ⊤) = ¬f ∨ g` may not."""
+    from .fd import alts
+    from . import canon as _c
+    import itertools
+    out = []
+    for f in prog.lib_fns:
+        if f.name != "insert" or not (f.impl_trait or "").endswith("cache::IteTable"):
+            continue
+        te = f.terms
+        for cs in te.calls:
+            if not (cs.callee.name == "insert" and cs.args and show(strip(cs.args[0])).endswith(".table") and len(cs.args) >= 2):
+                continue
+            k = strip(_c._peel(strip(cs.args[1])))
+            roles, kte, body = {}, te, k
+            if mir.is_call(k) and (k[1].local or getattr(k[1], "res_local", False)):
+                hs = [h for h in prog.resolve(k[1]) if "{closure" not in h.npath]
+                if len(hs) == 1 and hs[0].terms.ret is not None:
+                    h = hs[0]
+                    for i, a in enumerate(k[2]):
+                        r = _role(a, {})
+                        if r and not r[1]:
+                            roles[("param", i + 1)] = r[0]
+                    kte, body = h.terms, h.terms.ret
+            key = "%s:GL13:key-denotes-the-triple" % f.impl_self
+            errs, und, n_alt = [], [], 0
+            for leaf, facts in alts(kte, body):
+                leaf = strip(leaf)
+                if not (isinstance(leaf, tuple) and leaf and leaf[0] == "agg" and leaf[1] == "tuple" and len(leaf[4]) == 3):
+                    und.append("?a key alternative is not a triple: %s" % show(leaf)[:60])
+                    continue
+                comps = [_role(c, roles) for c in leaf[4]]
+                if any(c is None for c in comps):
+                    und.append("?a key component is not an operand of the triple: %s" % show(leaf)[:60])
+                    continue
+                n_alt += 1
+                if [c for c in comps] == [("f", False), ("g", False), ("h", False)]:
+                    continue
+                for sf, sg, sh in itertools.product(_STATES, repeat=3):
+                    env = {"f": sf, "g": sg, "h": sh}
+                    feasible = True
+                    for c, val in facts:
+                        want = _lab_truth(val)
+                        got = _bval(prog, c, roles, env)
+                        if want is not None and got is not None and want != got:
+                            feasible = False
+                            break
+                    if not feasible:
+                        continue
+                    bit = lambda r: (env[r[0]][1] == "1") != r[1]
+                    a, b, c_ = (bit(x) for x in comps)
+                    orig = (sg[1] == "1") if sf[1] == "1" else (sh[1] == "1")
+                    if (b if a else c_) != orig:
+                        nm = {"c0": "⊥", "c1": "⊤", "v0": "0", "v1": "1"}
+                        errs.append("the triple (f, g, h) is filed under (%s): with f=%s, g=%s, h=%s — a state the conditions of this "
+                                    "rewriting admit — the rewritten triple denotes another function than ite(f, g, h), so a result "
+                                    "stored for one operation is replayed for a different one"
+                                    % (", ".join(("¬" if x[1] else "") + x[0] for x in comps), nm[sf], nm[sg], nm[sh]))
+                        break
+            if errs:
+                out.append(inst("GL", key, VIOLATION, f, cs.line, "; ".join(dict.fromkeys(errs))))
+            elif und or not n_alt:
+                out.append(inst("GL", key, UNDECIDED, f, cs.line, "; ".join(dict.fromkeys(und)) or "?no key alternative read"))
+            else:
+                out.append(inst("GL", key, OK, f, cs.line, "every alternative of the key (%d) denotes ite(f, g, h)" % n_alt))
+    return out
+
+
+def _whole_all(k):
+    """parameters and generic constants the key carries unchanged (see _whole_params)"""
+    out = set()
+    todo = [strip(k)]
+    while todo:
+        x = todo.pop()
+        if not isinstance(x, tuple) or not x:
+            continue
+        if x[0] in ("param", "cparam"):
+            out.add((x[0], x[1]))
+        elif x[0] in ("ref", "deref") and len(x) > 1:
+            todo.append(strip(x[1]))
+        elif x[0] == "cast" and len(x) > 2:
+            todo.append(strip(x[2]))
+        elif x[0] == "agg":
+            todo += [strip(o) for o in x[4]]
+        elif x[0] == "call" and x[1].name in ("clone", "into", "from", "to_owned") and x[2]:
+            todo.append(strip(x[2][0]))
+    return out
+
+
+def gl14(prog):
+    """GL14  a `static` / `thread_local!` declared inside a generic function is ONE object shared by every instantiation of
+    the function.  When it is used as a memo (its content is compared with the request and handed back on a match) and the
+    function's result depends on a generic constant (the modulus `P` of the finite-field code), the compared key must
+    carry that constant itself — residues `a % P` do not: the same pair of residues under another modulus hits the entry."""
+    out = []
+    for f in prog.lib_fns:
+        if "::test" in f.npath or f.name.startswith("test") or "{closure" in f.npath or \
+                not any(b["term"]["k"] == "call" for b in f.blocks):
+            continue
+        te = f.terms
+        reads = []
+        for cs in te.calls:
+            if not cs.args:
+                continue
+            a0 = strip(cs.args[0])
+            if isinstance(a0, tuple) and a0 and a0[0] == "constitem" and isinstance(a0[1], str) and \
+                    (a0[1] == f.npath or a0[1].startswith(f.npath + "::")) and \
+                    cs.callee.name in ("with", "with_borrow", "with_borrow_mut", "lock", "read", "borrow", "get", "take"):
+                reads.append(cs)
+        if not reads:
+            continue
+        cps = {x[1] for t in [te.ret] + [c for c, _ in te.switch_term.values()] for x in mir.subterms(t) if x[0] == "cparam"}
+        if not cps:
+            continue
+        key = "%s:GL14:static-memo-in-generic-fn" % f.npath
+        rd = {repr(("call", cs.callee, tuple(cs.args))) for cs in reads}
+
+        def mentions_read(t):
+            return any(x[0] == "call" and repr(("call", x[1], tuple(x[2]))) in rd for x in mir.subterms(t))
+        # is what is read handed back?
+        from .dt import leaves
+        if not any(mentions_read(r) for r in leaves(te.ret)):
+            continue          # a counter, a statistic: not a memo of results
+        keys = []
+        for cs in te.calls:
+            if cs.callee.name in ("eq", "ne") and len(cs.args) == 2:
+                for a, b in ((cs.args[0], cs.args[1]), (cs.args[1], cs.args[0])):
+                    if mentions_read(a) and not mentions_read(b):
+                        keys.append(b)
+        for b_, (c, _) in te.switch_term.items():
+            c = strip(c)
+            if isinstance(c, tuple) and c and c[0] == "bin" and c[1] in ("Eq", "Ne"):
+                for a, b in ((c[2], c[3]), (c[3], c[2])):
+                    if mentions_read(a) and not mentions_read(b):
+                        keys.append(b)
+        if not keys:
+            out.append(inst("GL", key, UNDECIDED, f, reads[0].line,
+                            "?a static inside the generic function is read and handed back, but no comparison with the request was found"))
+            continue
+        whole = set()
+        for k in keys:
+            whole |= _whole_all(k)
+        missing = sorted(c for c in cps if ("cparam", c) not in whole)
+        out.append(inst("GL", key, VIOLATION if missing else OK, f, reads[0].line,
+                        ("the memo lives in a static declared inside the generic function, so there is one table for every value of "
+                         "%s; the result depends on %s, but the key compared with the remembered request (%s) does not carry it "
+                         "(residues modulo %s do not): after a product under one modulus the same residues under another "
+                         "modulus are answered from the stale entry" % (missing, missing, show(keys[0])[:60], missing[0]))
+                        if missing else "the key of the static memo carries every generic constant the result depends on"))
     return out
